@@ -128,7 +128,7 @@ func main() {
 				fmt.Fprintf(os.Stderr, "no check registered for %s\n", id)
 				os.Exit(2)
 			}
-			c := &Check{ID: id, Tier: tier, W: w}
+			c := &Check{ID: id, Tier: tier, W: w, Funcs: map[string]bool{}}
 			if lerr == nil {
 				runProp(c, f)
 				if tier == "thorough" && os.Getenv("MIXVET_REPO") == "" {
